@@ -48,7 +48,7 @@ def run_once(case, perm, vorder):
         names = list(reversed(names))
     excl = {}
     for v, uid in case["excl"]:
-        excl.setdefault(UUID(uuid_of(uid)), set()).add(VALIDATORS[v])
+        excl.setdefault(UUID(uuid_of(uid)) if uid else None, set()).add(VALIDATORS[v])  # uid 0: the rules without id
     snapshot = lambda: [json.dumps(r.to_dict(), sort_keys=True, default=str) for r in rules]
     before = snapshot()
     out = {"perm": list(perm), "ok": False, "issues": [], "unchanged": False}
